@@ -11,42 +11,44 @@ import (
 // Profile selects which features a generated project may use. Every property uses the same
 // model with a profile biased towards the shapes it cares about.
 type Profile struct {
-	MaxControllers   int
-	MaxMethods       int
-	MinMethods       int
-	CtrlPackages     []string // package dirs controllers may live in
-	Decoys           bool     // non-endpoint methods that look almost like endpoints
-	Hidden           bool
-	Security         bool
-	Enforce          bool // may switch enforceSecurityOnAllRoutes on
-	ExtraParams      int  // max query/header/body params beyond the route's path params
-	Types            bool // declared types (structs/enums/aliases) in params, bodies, results
-	TypePackages     []string
-	Validators       bool // validator strings on params and fields
-	Responses        bool // @Response / @ErrorResponse / custom error types
-	SlashNoise       bool // doubled / missing / trailing slashes in templates
-	TrailingSlash    bool
-	PrefixParams     bool // controller prefixes may carry {params} that every method binds with @Path
-	DupWire          bool // two parameters of one location may share a wire name
-	PtrPathParams    bool // path parameters may be declared as pointers
-	NoNamedInMaps    bool // no map[string]<declared type> as body or result (finding F-C09-2: such routes yield uncompilable code)
-	CollidingNames   bool // parameter names that collide with template locals / each other after camel-casing
-	Experimental     bool // draw experimental flags, response validation and a package name
-	FlatStructs      bool // struct fields limited to string/int/bool/float/[]string without tags (bodies the router harness can synthesise)
-	RichValidators   bool // draw validators from the whole vocabulary both spec converters understand
-	VarySchemes      bool // draw the security scheme catalogue of the configuration
-	UndeclaredScheme bool // sometimes let routes name a scheme the configuration does not declare
-	FixedEngine      string
-	FixedOpenAPI     string
-	NoLayoutNoise    bool
-	SharedPrefix     bool // two controllers may share a route prefix
-	PtrParams        bool
-	FormParams       bool
-	ContextParams    bool
-	GroupedParams    bool
-	SliceQuery       bool
-	MinControllers   int
-	StrayController  bool // sometimes declare an annotated controller inside a type package (outside the globs)
+	MaxControllers        int
+	MaxMethods            int
+	MinMethods            int
+	CtrlPackages          []string // package dirs controllers may live in
+	Decoys                bool     // non-endpoint methods that look almost like endpoints
+	Hidden                bool
+	Security              bool
+	Enforce               bool // may switch enforceSecurityOnAllRoutes on
+	ExtraParams           int  // max query/header/body params beyond the route's path params
+	Types                 bool // declared types (structs/enums/aliases) in params, bodies, results
+	TypePackages          []string
+	Validators            bool // validator strings on params and fields
+	Responses             bool // @Response / @ErrorResponse / custom error types
+	SlashNoise            bool // doubled / missing / trailing slashes in templates
+	TrailingSlash         bool
+	PrefixParams          bool // controller prefixes may carry {params} that every method binds with @Path
+	DupWire               bool // two parameters of one location may share a wire name
+	PtrPathParams         bool // path parameters may be declared as pointers
+	NoNamedInMaps         bool // no map[string]<declared type> as body or result (finding F-C09-2: such routes yield uncompilable code)
+	CollidingNames        bool // parameter names that collide with template locals / each other after camel-casing
+	Experimental          bool // draw experimental flags, response validation and a package name
+	FlatStructs           bool // struct fields limited to string/int/bool/float/[]string without tags (bodies the router harness can synthesise)
+	RichValidators        bool // draw validators from the whole vocabulary both spec converters understand
+	VarySchemes           bool // draw the security scheme catalogue of the configuration
+	UndeclaredScheme      bool // sometimes let routes name a scheme the configuration does not declare
+	FixedEngine           string
+	FixedOpenAPI          string
+	NoLayoutNoise         bool
+	SharedPrefix          bool // two controllers may share a route prefix
+	PtrParams             bool
+	FormParams            bool
+	ContextParams         bool
+	GroupedParams         bool
+	SliceQuery            bool
+	MinControllers        int
+	MirrorController      bool // sometimes add a controller that mirrors the first one with counterpart types from another package
+	GroupFollowerSameType bool // the parameter after a grouped declaration always has the group's type (router lab: the misbinding variant compiles)
+	StrayController       bool // sometimes declare an annotated controller inside a type package (outside the globs)
 }
 
 var CoreProfile = Profile{
@@ -439,6 +441,27 @@ func GenProject(t *rapid.T, pf Profile) *Project {
 		}
 		p.Controllers = append(p.Controllers, c)
 	}
+	if pf.MirrorController && len(p.Controllers) > 0 && rapid.IntRange(0, 2).Draw(t, "mirror") > 0 {
+		// mirror the controller whose signatures use the most declared types
+		src, best := p.Controllers[0], -1
+		for _, c := range p.Controllers {
+			n := 0
+			for _, m := range c.RealMethods() {
+				for _, prm := range m.Params {
+					if prm.Type.Base().Kind == "named" {
+						n++
+					}
+				}
+			}
+			if n > best {
+				src, best = c, n
+			}
+		}
+		if mc := mirrorController(p, src, pf); mc != nil {
+			p.Controllers = append(p.Controllers, mc)
+			pkgUsed[mc.Pkg] = true
+		}
+	}
 	// globs: the controller package directories (types live elsewhere and are reached through imports)
 	for _, pkg := range pf.CtrlPackages {
 		if pkgUsed[pkg] {
@@ -457,6 +480,102 @@ func GenProject(t *rapid.T, pf Profile) *Project {
 		}
 	}
 	return p
+}
+
+// mirrorController clones a controller the way one bounded context mirrors another in real services: the same method
+// and parameter names, every declared type replaced by a declaration of the same kind from another package (when there
+// is one), under a route prefix of its own. Whatever gleece keys by a name alone meets two different things here.
+func mirrorController(p *Project, src *Controller, pf Profile) *Controller {
+	b, _ := json.Marshal(src)
+	var c Controller
+	if json.Unmarshal(b, &c) != nil {
+		return nil
+	}
+	counterpart := func(name, pkg string) (string, string) {
+		var kind string
+		for _, d := range p.Types {
+			if d.Name == name && d.Pkg == pkg {
+				kind = d.Kind
+			}
+		}
+		for _, d := range p.Types {
+			if kind != "" && kind != "raw" && d.Kind == kind && d.Pkg != pkg && !d.EmbedsError {
+				return d.Name, d.Pkg
+			}
+		}
+		// no declaration of that kind elsewhere: an enum or alias gets a twin in another type package
+		if kind == "enum" || kind == "alias" {
+			for _, other := range pf.TypePackages {
+				if other == pkg {
+					continue
+				}
+				for _, d := range p.Types {
+					if d.Name == name && d.Pkg == pkg {
+						twin := *d
+						twin.Pkg, twin.Name = other, d.Name+"Twin"
+						twin.Consts = nil
+						for _, c := range d.Consts {
+							twin.Consts = append(twin.Consts, EnumConst{Name: c.Name + "Twin", Value: c.Value, File: c.File})
+						}
+						p.Types = append(p.Types, &twin)
+						return twin.Name, twin.Pkg
+					}
+				}
+			}
+		}
+		return name, pkg
+	}
+	var mapType func(t *TypeRef)
+	mapType = func(t *TypeRef) {
+		if t == nil {
+			return
+		}
+		if t.Kind == "named" {
+			t.Name, t.Pkg = counterpart(t.Name, t.Pkg)
+		}
+		mapType(t.Elem)
+	}
+	c.Name = "Mirror" + src.Name
+	c.File = "mirror_" + src.File
+	for _, pkg := range pf.CtrlPackages {
+		if pkg != src.Pkg {
+			c.Pkg = pkg
+			break
+		}
+	}
+	c.HasRoute, c.Route = true, fmt.Sprintf("/mirror%d", len(p.Controllers))
+	c.Grouped, c.GroupDoc, c.RawDoc = false, "", nil
+	var methods []*Method
+	for _, m := range c.Methods {
+		if m.Decoy != "" || m.RawSig != "" || m.RawDoc != nil {
+			continue
+		}
+		m.Name += "M"
+		m.File = c.File
+		if m.ErrType != nil {
+			// custom error types live in the controller's own package: the mirror gets its own
+			errName := "ApiError" + strings.ToUpper(pkgAlias(c.Pkg)[:1]) + pkgAlias(c.Pkg)[1:]
+			if p.FindType(c.Pkg, errName) == nil {
+				p.Types = append(p.Types, &TypeDecl{Name: errName, Pkg: c.Pkg, File: "errors.go", Kind: "struct", EmbedsError: true,
+					Fields: []Field{{Name: "Code", Type: Prim("int"), JSON: "code"}, {Name: "Reason", Type: Prim("string")}}})
+			}
+			e := Named(c.Pkg, errName)
+			if m.ErrType.IsPtr() {
+				e = Ptr(e)
+			}
+			m.ErrType = &e
+		}
+		for i := range m.Params {
+			mapType(&m.Params[i].Type)
+		}
+		mapType(m.Ret)
+		methods = append(methods, m)
+	}
+	if len(methods) == 0 {
+		return nil
+	}
+	c.Methods = methods
+	return &c
 }
 
 // CollidingNamePool: names the generated handlers use themselves, package names they import, and
@@ -670,6 +789,27 @@ func genExtraParams(t *rapid.T, pf Profile, m *Method, types *typeCtx) {
 				prm.Type = Slice(prm.Type)
 			}
 		}
+		// names that recur from controller to controller, as they do in real APIs: the body is "body", a parameter of a
+		// declared type is called after its type (status models.Status0 here, status shared.Status1 there)
+		if rapid.IntRange(0, 2).Draw(t, "recurringName") > 0 {
+			cand := ""
+			if prm.In == "body" {
+				cand = rapid.SampledFrom([]string{"body", "payload"}).Draw(t, "bodyName")
+			} else if nb := prm.Type.Base(); nb.Kind == "named" {
+				cand = strings.ToLower(strings.TrimRight(nb.Name, "0123456789"))
+			}
+			if cand != "" && !used[cand] {
+				clash := false
+				for _, o := range m.Params {
+					if o.Name == cand || o.WireName() == cand {
+						clash = true
+					}
+				}
+				if !clash {
+					prm.Name = cand
+				}
+			}
+		}
 		if pf.PtrParams && rapid.IntRange(0, 2).Draw(t, "ptr") == 0 && prm.Type.Kind != "slice" && prm.Type.Kind != "map" {
 			prm.Type = Ptr(prm.Type)
 		}
@@ -691,6 +831,12 @@ func genExtraParams(t *rapid.T, pf Profile, m *Method, types *typeCtx) {
 				prm.Type, prm.In, prm.Grouped = prev.Type, prev.In, true
 				prm.Validator = ""
 			} else {
+				if eligible && prev.Grouped && groupLeft == 0 && (pf.GroupFollowerSameType || rapid.Bool().Draw(t, "sameTypeAfterGroup")) {
+					// "a, b, c int, d int": a separate declaration of the group's type right after it; handing the
+					// arguments over in another order than the signature's still compiles
+					prm.Type, prm.In = prev.Type, prev.In
+					prm.Validator = ""
+				}
 				groupLeft = 0
 			}
 		}
@@ -701,6 +847,9 @@ func genExtraParams(t *rapid.T, pf Profile, m *Method, types *typeCtx) {
 		// never split a grouped declaration
 		for pos < len(m.Params) && m.Params[pos].Grouped {
 			pos++
+		}
+		if pf.GroupFollowerSameType && pos > 0 && m.Params[pos-1].Grouped {
+			pos = 0 // not directly behind a group either (see GroupFollowerSameType)
 		}
 		ctx := Param{Name: "ctx", In: "context", Type: TypeRef{Kind: "context"}}
 		m.Params = append(m.Params[:pos], append([]Param{ctx}, m.Params[pos:]...)...)
@@ -755,7 +904,7 @@ var FullProfile = Profile{
 	MaxControllers: 3, MaxMethods: 5, CtrlPackages: []string{"api", "api2", "internal/api3"},
 	Decoys: true, Hidden: true, Security: true, ExtraParams: 4, Types: true, TypePackages: []string{"models", "shared"},
 	Validators: true, Responses: true, SlashNoise: true, SharedPrefix: true, PtrParams: true, FormParams: true,
-	ContextParams: true, GroupedParams: true, SliceQuery: true, TrailingSlash: true, StrayController: true,
+	ContextParams: true, GroupedParams: true, SliceQuery: true, TrailingSlash: true, StrayController: true, MirrorController: true,
 }
 
 // SecurityProfile biases towards C04: every level of security, varied scheme catalogue, enforce flag.
@@ -767,7 +916,7 @@ var SecurityProfile = Profile{
 // RouterProfile: batch projects for the router lab (many routes per project, bodies the harness can synthesise).
 var RouterProfile = Profile{
 	MaxControllers: 4, MaxMethods: 8, MinMethods: 3, CtrlPackages: []string{"api", "api2", "internal/api3"},
-	Decoys: true, Hidden: true, Security: true, ExtraParams: 4, Types: true, TypePackages: []string{"models", "shared"}, FlatStructs: true,
+	Decoys: true, Hidden: true, Security: true, ExtraParams: 6, Types: true, TypePackages: []string{"models", "shared"}, FlatStructs: true,
 	Validators: true, Responses: true, SlashNoise: true, SharedPrefix: true, PtrParams: true, FormParams: true,
-	ContextParams: true, GroupedParams: true, SliceQuery: true, PtrPathParams: false, NoNamedInMaps: true, TrailingSlash: true, StrayController: true,
+	ContextParams: true, GroupedParams: true, SliceQuery: true, PtrPathParams: false, NoNamedInMaps: true, TrailingSlash: true, StrayController: true, GroupFollowerSameType: true, MirrorController: true,
 }
